@@ -145,3 +145,33 @@ def run(ctx, args):
         assumptions=["a written number may be non-minimal as long as the standard decoder returns the value (checked by decoding, not by comparing with the reference encoding)",
                      "wasmtime is used only to cross-check WasmBinary on the API-built modules"],
         extra={"outcome_counts": counts})
+
+
+def selftest(ctx, args):
+    """Negative control for the Leb128Trace binding: bytes the real writer produced are accepted; the same bytes with the last
+    byte's low bit flipped, with a continuation bit added to the last byte, or truncated are rejected."""
+    bits = lambda n: [(n >> k) & 1 for k in range(32)]  # noqa
+    enc = encode_values([bits(n) for n in (0, 63, 64, 127, 128, 300, 16384, 2 ** 31 - 1, 2 ** 31, 2 ** 32 - 1)])
+    cases = []
+    for e in enc:
+        if not e["bytes"]:
+            continue
+        cases.append(dict(e, id="original|" + e["id"]))
+        b = list(e["bytes"])
+        cases.append(dict(e, id="bit-flipped|" + e["id"], bytes=b[:-1] + [b[-1] ^ 1]))
+        cases.append(dict(e, id="continuation-set|" + e["id"], bytes=b[:-1] + [b[-1] | 0x80]))
+        if len(b) > 1:
+            cases.append(dict(e, id="truncated|" + e["id"], bytes=b[:-1]))
+    path = ctx.tmp("leb-selftest.json")
+    path.write_text(json.dumps(cases))
+    r2 = ctx.tlc("Leb128Trace", "INIT Init\nNEXT Next\nINVARIANT Report\nCHECK_DEADLOCK FALSE\n", env={"BATCH": str(path)}, timeout=600)
+    summary, bad = {}, 0
+    for r in r2.records:
+        name = r["id"].split("|")[0]
+        ok = (r["verdict"] == "ok") == (name == "original")
+        summary[name + (":ok" if ok else ":WRONG")] = summary.get(name + (":ok" if ok else ":WRONG"), 0) + 1
+        if not ok:
+            bad += 1
+            print(f"SELFTEST-FAILED {r['id']}: verdict {r['verdict']}")
+    print("selftest C19 (Leb128Trace binding):", json.dumps(summary, sort_keys=True))
+    return 0 if bad == 0 and len(r2.records) == len(cases) else 2
